@@ -10,6 +10,7 @@ import (
 	"github.com/pinealctx/neptune/tex"
 	"pgregory.net/rapid"
 	"verif.local/harness/hx"
+	"verif.local/simrt"
 )
 
 // C11: tex.Buffer is observationally identical to bytes.Buffer (of the toolchain that builds the
@@ -32,20 +33,20 @@ type C11Scenario struct {
 	InitData []byte `json:"init_data,omitempty"`
 	InitSize int    `json:"init_size"`
 	Ops      []bOp  `json:"ops"`
+	// Conc: further operation lists, each run by its own task on its own pair of buffers, concurrently with Ops
+	// (independent buffers must not influence each other through package-level state)
+	Conc  [][]bOp     `json:"conc,omitempty"`
+	Knobs hx.SimKnobs `json:"knobs"`
 }
 
 var bufOps = []string{"write", "write", "writestring", "writebyte", "writerune", "read", "read", "readbyte", "readrune", "unreadbyte", "unreadrune",
 	"next", "truncate", "reset", "grow", "readfrom", "writeto", "len", "bytes", "string", "rewrite"}
 
-func drawC11(rt *rapid.T) interface{} {
-	sc := &C11Scenario{}
-	sc.Init = rapid.SampledFrom([]string{"zero", "zero", "bytes", "string", "sized"}).Draw(rt, "init")
-	sc.InitData = rapid.SliceOfN(rapid.Byte(), 0, 70).Draw(rt, "initdata")
-	sc.InitSize = rapid.SampledFrom([]int{0, 1, 16, 64, 100, 1000}).Draw(rt, "initsize")
-	n := rapid.IntRange(1, hx.Pick(40, 120)).Draw(rt, "nops")
+func drawOps(rt *rapid.T, n int, choices []string) []bOp {
+	var ops []bOp
 	prev := ""
 	for i := 0; i < n; i++ {
-		op := bOp{Op: rapid.SampledFrom(bufOps).Draw(rt, "op"), Short: -1, Fail: -1}
+		op := bOp{Op: rapid.SampledFrom(choices).Draw(rt, "op"), Short: -1, Fail: -1}
 		// the property excludes UnreadByte/UnreadRune issued directly after Grow
 		if prev == "grow" && (op.Op == "unreadbyte" || op.Op == "unreadrune") {
 			op.Op = "len"
@@ -60,7 +61,7 @@ func drawC11(rt *rapid.T) interface{} {
 			case 2:
 				op.Data = rapid.SliceOfN(rapid.Byte(), 50, 70).Draw(rt, "medium") // crosses the 64-byte small-buffer path
 			case 3:
-				op.Data = []byte("héllo ✓ \xff\xfe wörld")
+				op.Data = []byte("h\u00e9llo \u2713 \xff\xfe w\u00f6rld")
 			default:
 				op.Data = bytes.Repeat([]byte{byte(i)}, rapid.SampledFrom([]int{63, 64, 65, 300, 1200}).Draw(rt, "big"))
 			}
@@ -95,9 +96,28 @@ func drawC11(rt *rapid.T) interface{} {
 				op.Over = rapid.IntRange(0, 3).Draw(rt, "over") == 0
 			}
 		}
-		sc.Ops = append(sc.Ops, op)
+		ops = append(ops, op)
 		prev = op.Op
 	}
+	return ops
+}
+
+func drawC11(rt *rapid.T) interface{} {
+	sc := &C11Scenario{}
+	sc.Init = rapid.SampledFrom([]string{"zero", "zero", "bytes", "string", "sized"}).Draw(rt, "init")
+	sc.InitData = rapid.SliceOfN(rapid.Byte(), 0, 70).Draw(rt, "initdata")
+	sc.InitSize = rapid.SampledFrom([]int{0, 1, 16, 64, 100, 1000}).Draw(rt, "initsize")
+	if rapid.IntRange(0, 5).Draw(rt, "concurrent") == 0 {
+		// independent buffers used by concurrent tasks: short lists, rich in the operations that go through helpers
+		light := []string{"write", "writestring", "writebyte", "writerune", "writerune", "writerune", "read", "readbyte", "readrune", "unreadrune", "next", "grow", "string", "readfrom"}
+		sc.Ops = drawOps(rt, rapid.IntRange(1, 10).Draw(rt, "nops0"), light)
+		for k := rapid.IntRange(1, 2).Draw(rt, "nothers"); k > 0; k-- {
+			sc.Conc = append(sc.Conc, drawOps(rt, rapid.IntRange(1, 10).Draw(rt, "nopsk"), light))
+		}
+		sc.Knobs = hx.DrawKnobs(rt, []int{1000, 300, 100})
+		return sc
+	}
+	sc.Ops = drawOps(rt, rapid.IntRange(1, hx.Pick(40, 120)).Draw(rt, "nops"), bufOps)
 	return sc
 }
 
@@ -219,7 +239,55 @@ func apply(b bufFace, op bOp, consumed *[]byte, fired map[string]int) (res strin
 
 func runC11(t *testing.T, sci interface{}, keepLog bool) *hx.Outcome {
 	sc := sci.(*C11Scenario)
+	if len(sc.Conc) > 0 {
+		return runC11Conc(t, sc, keepLog)
+	}
 	o := &hx.Outcome{Counts: map[string]int{}}
+	log := c11Seq(sc, sc.Ops, o, nil)
+	if o.Class != "" {
+		log = append(log, "VIOLATION "+o.Class+": "+o.Msg)
+	}
+	o.LogHash = hashLines(log)
+	if keepLog {
+		o.Log = log
+	}
+	o.Steps = len(log)
+	o.Nontrivial = len(sc.Ops) >= 3
+	return o
+}
+
+// runC11Conc: every operation list runs as its own task on its own pair of buffers inside the simulation (the tex
+// package is simgen-transformed, so tasks interleave inside its methods).
+func runC11Conc(t *testing.T, sc *C11Scenario, keepLog bool) *hx.Outcome {
+	lists := append([][]bOp{sc.Ops}, sc.Conc...)
+	outs := make([]*hx.Outcome, len(lists))
+	main := func(s *simrt.Sim) {
+		var ts []*simrt.Task
+		for li, ops := range lists {
+			li, ops := li, ops
+			outs[li] = &hx.Outcome{Counts: map[string]int{}}
+			ts = append(ts, simrt.GoNamed(fmt.Sprintf("buffer%d", li), func() {
+				for _, l := range c11Seq(sc, ops, outs[li], simrt.Yield) {
+					s.Logf("b%d %s", li, l)
+				}
+				if outs[li].Class != "" {
+					s.Fail("differs-from-bytes-buffer-under-concurrency", "buffer %d, used by one task only while other tasks use other buffers: %s", li, outs[li].Msg)
+				}
+			}))
+		}
+		hx.WaitDone(s, ts...)
+	}
+	res := hx.RunSim(t, sc.Knobs.Config(keepLog, 200000), nil, main)
+	o := hx.FromResult(res)
+	if o.Counts == nil {
+		o.Counts = map[string]int{}
+	}
+	o.Counts["independent-buffers-concurrently"]++
+	return o
+}
+
+// c11Seq runs one operation list on a fresh pair of buffers; between operations it calls yield (if any).
+func c11Seq(sc *C11Scenario, opsList []bOp, o *hx.Outcome, yield func()) []string {
 	var log []string
 	var tb *tex.Buffer
 	var sb *bytes.Buffer
@@ -238,9 +306,12 @@ func runC11(t *testing.T, sci interface{}, keepLog bool) *hx.Outcome {
 	}
 	afterGrow := false
 	readSinceReset := sc.Init == "bytes" || sc.Init == "string" // ReWrite is specified on the written, unread region only
-	for i, op := range sc.Ops {
+	for i, op := range opsList {
 		if o.Class != "" {
 			break
+		}
+		if yield != nil {
+			yield()
 		}
 		if op.Op == "rewrite" {
 			// ReWrite has no bytes.Buffer counterpart: one-line specification, checked when nothing was read since the last reset
@@ -309,16 +380,7 @@ func runC11(t *testing.T, sci interface{}, keepLog bool) *hx.Outcome {
 			o.Counts["panic-in-both"]++
 		}
 	}
-	if o.Class != "" {
-		log = append(log, "VIOLATION "+o.Class+": "+o.Msg)
-	}
-	o.LogHash = hashLines(log)
-	if keepLog {
-		o.Log = log
-	}
-	o.Steps = len(log)
-	o.Nontrivial = len(sc.Ops) >= 3
-	return o
+	return log
 }
 
 func trunc(s string) string {
@@ -338,7 +400,7 @@ func TestC11(t *testing.T) {
 		Stubs:       []string{"io.Reader handed to ReadFrom (fragmenting, (0,nil) reads, data with EOF, error after k bytes, negative count)", "io.Writer handed to WriteTo (short write, error after k bytes, over-long count)"},
 		Rule: "scenario = initial buffer (zero, NewBuffer, NewBufferString, NewSizedBuffer) x up to 40 operations over Write/WriteString/WriteByte/WriteRune (incl. negative, surrogate and out-of-range runes)/Read/ReadByte/ReadRune/UnreadByte/UnreadRune/Next/Truncate/Reset/Grow (incl. invalid arguments)/ReadFrom(faulty reader)/WriteTo(faulty writer)/Len/Bytes/String/ReWrite; " +
 			"both buffers run the same operation, results + errors + recovered panics + Len + Bytes compared after every step; non-trivial = >=3 ops; distinct = distinct hash of the step log",
-		Probes: []string{"panic-in-both", "rewrite", "fragment", "zero-read", "eof-with-data", "read-error", "read-error-with-data", "short-write", "write-error", "unread-after-grow-skipped"},
+		Probes: []string{"panic-in-both", "rewrite", "fragment", "zero-read", "eof-with-data", "read-error", "read-error-with-data", "short-write", "write-error", "unread-after-grow-skipped", "independent-buffers-concurrently"},
 		Assumptions: []string{"reference = bytes.Buffer of the toolchain building the check (go1.26.8)", "UnreadByte/UnreadRune directly after Grow and Cap() are not compared (the property's exclusion)",
 			"ReWrite is checked against its one-line specification while nothing has been read since the last reset"},
 	})
